@@ -1316,6 +1316,19 @@ class BayesianNetwork(DAG):
         if (do != {}) or (virtual_intervention != []):
             virt_nodes = [cpd.variables[0] for cpd in virtual_intervention]
             model = model.do(list(do.keys()) + virt_nodes)
+            # A hard intervention fixes the variable whatever its CPD says: give it a point
+            # mass, otherwise the sampler below waits for the state to come up by chance
+            # (forever, if the state has probability 0 in the CPD).
+            for var, state in do.items():
+                model.remove_cpds(model.get_cpds(var))
+                model.add_cpds(
+                    TabularCPD(
+                        var,
+                        len(state_names[var]),
+                        [[float(s == state)] for s in state_names[var]],
+                        state_names={var: state_names[var]},
+                    )
+                )
             evidence = {**evidence, **do}
             virtual_evidence = [*virtual_evidence, *virtual_intervention]
 
